@@ -363,7 +363,8 @@ func (g *c10gen) doc() *D {
 		strs = append(strs, h.Str(c10Strs[r.Intn(len(c10Strs))]))
 	}
 	return h.Obj("rows", h.SliceAny(rows...), "nums", h.SliceAny(nums...), "strs", h.SliceAny(strs...),
-		"o", h.Obj("a", g.num(), "b", g.num()), "z", h.Obj("p", h.FloatD(0), "q", h.Str("")), "none", h.SliceAny(), "s", h.Str(c10Strs[r.Intn(len(c10Strs))]), "n", g.num(), "t", h.Bool(true), "limits", h.Obj("lo", h.FloatD(1), "hi", h.FloatD(5)))
+		"o", h.Obj("a", g.num(), "b", g.num()), "z", h.Obj("p", h.FloatD(0), "q", h.Str("")), "none", h.SliceAny(), "s", h.Str(c10Strs[r.Intn(len(c10Strs))]), "n", g.num(), "t", h.Bool(true), "limits", h.Obj("lo", h.FloatD(1), "hi", h.FloatD(5)),
+		"ma\u017fs", g.num()) // a key with the long s: MASS, mass and maſs are the same key
 }
 
 func (g *c10gen) query() string {
@@ -380,6 +381,7 @@ func (g *c10gen) query() string {
 		"$.missing?.IsNull()", "$.o.zz?.IsNull()", "$.rows.Index(0).tags.Count()", "$.o.IsNull()", "$.rows.IsEmpty()", "$.nums.IsNotEmpty()", "$.o[@.a.GreaterOrEqual($.o.b)]", "$.o[@.a.Equal($.o.a)].b", "$.o[@.a.Less(0)]",
 		"$.o.Sum()", "$.o.Maximum()", "$.o.Select(\"$\").Count()", "$.o.RemoveKeysByPrefix(\"a\")", "$.z.IsEmpty()", "$.z.Any()", "$.o.IsEmpty()", "$.none.IsNull()", "$.none.Count()", "$.none.zz?.IsNull()", "$.strs.IsNull()",
 		"$.z.p", "$.z.q.IsEmpty()", "$.z.p.Equal(0)", "$.z.P.Add($.z.p)", "$.rows[@.k.Equal(0)].Count()", "$.rows[@.name.IsEmpty()].k", "$.rows.on",
+		"$.MASS", "$.mass.Add(1)", "$.Ma\u017fS.Equal($.MASS)",
 		"$.rows.AsArray().Count()", "$.n.AsArray().First()", "$.limits.hi.Subtract($.limits.lo)", "$.rows[@.tags.Any()].name", "$.rows[@.tags[@.Equal(\"tag\")].Any()].k",
 	}
 	return qs[r.Intn(len(qs))]
@@ -436,6 +438,9 @@ func c10(c *Ctx) {
 		for _, r := range rends {
 			rd := r.f(doc)
 			ec := c.AddEval(q, rd, "carrier:"+r.name, true, true)
+			if strings.Contains(strings.ToLower(q), "mass") || strings.Contains(q, "\u017f") {
+				ec.Proj = func(o h.Outcome) string { return "" } // the model folds ASCII letters only: compared across carriers, not with the model
+			}
 			gr.cases = append(gr.cases, ec)
 			gr.names = append(gr.names, r.name)
 		}
